@@ -131,12 +131,12 @@ theorem len_step (i : Inst) (s : State) (a : Nat) (hd : (step i s a).depot = 0) 
       (if (i.openMode && decide (a < i.K) && decide (i.K ≤ s.cur)) = true then 0
        else if a < i.K ∧ s.cur < i.K then 0 else i.D s.cur a)) := by
   have hd0 : (if backFlag i s a = true then a else s.depot) = 0 := hd
-  simp only [step, hd0, openZero_eq]
+  simp only [step, stepF, depotSel_asCoded, hd0, openZero_eq, depotLeg_eq, decide_eq_true_eq]
 
 theorem arrive_step (i : Inst) (s : State) (a : Nat) (hd : (step i s a).depot = 0) :
     (step i s a).arrive = upd s.arrive a ((step i s a).len 0) := by
   have hd0 : (if backFlag i s a = true then a else s.depot) = 0 := hd
-  simp only [step, hd0]
+  simp only [step, stepF, depotSel_asCoded, hd0]
 
 theorem lateSum_step (i : Inst) (hwf : WF i) (s : State) (a : Nat) (ha : a < i.N)
     (hd : (step i s a).depot = 0) :
